@@ -55,9 +55,25 @@ replay: none
 desc: io_copy_attrs: the mode passed to fchmod never grants a permission bit the source did not have and never contains setuid/setgid/sticky; when the group could not be set the group bits are reduced to what 'other' also has; access/modification times passed to futimens are the source's; failures only warn
 */
 
+/*@obligation
+id: C19.open_dest
+props: C19 C17 C18
+entry: h_open_dest
+flags: xz
+unwind: 26
+fn: io_open_dest_real
+sentinels: 6
+expect: 30
+replay: none
+desc: io_open_dest_real with every system call free to fail: a destination FILE is only ever created with O_CREAT|O_EXCL (never O_TRUNC, never opened without O_EXCL) and mode 0600, so an existing file is never overwritten unless --force asked for it -- and then it is removed with unlink BEFORE the exclusive create, a failed unlink (other than ENOENT) aborts; with --stdout or standard input as source nothing is opened or unlinked and the destination is fd 1; on every error path no destination fd is left behind, the directory fd is closed, and true is returned; sparse mode is enabled only when decompressing with sparse allowed and the target is a regular file we created or a regular-file stdout positioned at its end (append mode: seek to the end and clear O_APPEND, to be restored at close)
+assume: open/unlink/fstat/fcntl/lseek/close/free/xstrdup/dirname/suffix_get_dest_name are stubs with nondeterministic results recorded in the ghost event log
+*/
+
 #include "verif.h"
 /* the real translation unit first (it includes private.h, which has no include guard) */
 #include "file_io.c"
+#include <stdarg.h>
+#include <libgen.h>
 
 /* ---------------- ghost event log and system call stubs ---------------- */
 struct ev { int kind; int fd; long a; };
@@ -77,12 +93,20 @@ struct in {
 };
 static struct in IN VERIF_IN_INIT;
 
+struct in2 { uint8_t r_open_dir, r_open_dest, r_fstat, dest_isreg, r_fcntl_get, r_fcntl_set, name_null, to_stdout, src_stdin, try_sparse_opt, mode_decompress, r_unlink_enoent, r_lseek_end; int32_t stdout_flags; int64_t cur_pos, st_size; };
+static struct in2 IN2;
+static bool g_open_dest_mode; /* lseek on stdout reports positions only in the io_open_dest_real obligation */
 static char SRC_NAME[] = "src", DEST_NAME_BUF[] = "dest";
 #define FD_SRC 5
 #define FD_DEST 6
 #define FD_DIR 7
 
-off_t lseek(int fd, off_t off, int whence) { log_ev(EV_LSEEK, fd, (long)off); (void)whence; return IN.r_lseek ? -1 : 0; }
+off_t lseek(int fd, off_t off, int whence)
+{
+	log_ev(EV_LSEEK, fd, (long)off);
+	if (g_open_dest_mode && fd == STDOUT_FILENO) return whence == SEEK_END ? (IN2.r_lseek_end ? -1 : IN2.st_size) : IN2.cur_pos;
+	return IN.r_lseek ? -1 : 0;
+}
 ssize_t write(int fd, const void *buf, size_t n)
 {
 	log_ev(EV_WRITE, fd, (long)n);
@@ -96,7 +120,7 @@ ssize_t write(int fd, const void *buf, size_t n)
 }
 int fsync(int fd) { log_ev(EV_FSYNC, fd, 0); return fd == FD_DEST ? (IN.r_fsync1 ? -1 : 0) : (IN.r_fsync2 ? -1 : 0); }
 int close(int fd) { log_ev(EV_CLOSE, fd, 0); return (fd == FD_DEST && IN.r_close_dest) ? -1 : 0; }
-int unlink(const char *name) { log_ev(name == SRC_NAME ? EV_UNLINK_SRC : EV_UNLINK_DEST, 0, 0); return IN.r_unlink ? -1 : 0; }
+int unlink(const char *name) { log_ev(name == SRC_NAME ? EV_UNLINK_SRC : EV_UNLINK_DEST, 0, 0); if (IN.r_unlink) { errno = IN2.r_unlink_enoent ? ENOENT : EACCES; return -1; } return 0; }
 static int stat_common(const char *name, struct stat *st)
 {
 	log_ev(EV_STAT, name == SRC_NAME, 0);
@@ -113,6 +137,28 @@ int fchmod(int fd, mode_t m) { log_ev(EV_FCHMOD, fd, (long)m); GL.chmod_mode = m
 int futimens(int fd, const struct timespec tv[2]) { log_ev(EV_FUTIMENS, fd, 0); GL.tv[0] = tv[0]; GL.tv[1] = tv[1]; return 0; }
 void free(void *p) { (void)p; log_ev(EV_FREE, 0, 0); }
 
+static struct { unsigned opens; int open_flags[2]; mode_t open_mode[2]; const char *open_path[2]; unsigned fcntls; int setfl_flags; } GOP;
+static char DIRNAME_BUF[] = ".";
+int open(const char *path, int flags, ...)
+{
+	const unsigned k = GOP.opens++;
+	if (k < 2) { GOP.open_flags[k] = flags; GOP.open_path[k] = path; GOP.open_mode[k] = 0; if (flags & O_CREAT) { va_list ap; va_start(ap, flags); GOP.open_mode[k] = va_arg(ap, mode_t); va_end(ap); } }
+	log_ev(100, flags, 0);
+	const bool is_dir = (flags & O_DIRECTORY) != 0;
+	if (is_dir ? IN2.r_open_dir : IN2.r_open_dest) { errno = EACCES; return -1; }
+	return is_dir ? FD_DIR : FD_DEST;
+}
+int fstat(int fd, struct stat *st) { log_ev(EV_STAT, fd, 1); memset(st, 0, sizeof(*st)); if (IN2.r_fstat) return -1; st->st_mode = IN2.dest_isreg ? S_IFREG : S_IFIFO; st->st_size = IN2.st_size; st->st_dev = 1; st->st_ino = 200; return 0; }
+int fcntl(int fd, int cmd, ...)
+{
+	++GOP.fcntls; log_ev(EV_FCNTL, fd, cmd);
+	if (cmd == F_GETFL) return IN2.r_fcntl_get ? -1 : IN2.stdout_flags;
+	va_list ap; va_start(ap, cmd); GOP.setfl_flags = va_arg(ap, int); va_end(ap);
+	return IN2.r_fcntl_set ? -1 : 0;
+}
+char *xstrdup(const char *s) { (void)s; return DIRNAME_BUF; }
+char *dirname(char *p) { return p; }
+
 /* xz helpers that file_io.c calls */
 void message_warning(const char *fmt, ...) { (void)fmt; ++GL.warnings; }
 void message_error(const char *fmt, ...) { (void)fmt; ++GL.errors; }
@@ -124,7 +170,7 @@ volatile sig_atomic_t user_abort;
 bool opt_keep_original, opt_force, opt_synchronous = true, opt_stdout, opt_robust_dummy;
 enum operation_mode opt_mode; enum format_type opt_format;
 bool opt_robot, opt_ignore_check;
-char *suffix_get_dest_name(const char *s) { (void)s; return NULL; }
+char *suffix_get_dest_name(const char *s) { (void)s; return IN2.name_null ? NULL : DEST_NAME_BUF; }
 int mytime_get_flush_timeout(void) { return 0; } void mytime_set_flush_time(void) {}
 int mytime_dummy;
 void *xrealloc(void *p, size_t s) { (void)p; (void)s; return NULL; }
@@ -274,3 +320,56 @@ void h_copy_attrs(void)
 	ASSERT(GL.errors == 0, "attribute failures only warn");
 }
 
+
+/* ---------------- io_open_dest_real ---------------- */
+void h_open_dest(void)
+{
+	HAVOC(IN, struct in);
+	HAVOC(IN2, struct in2);
+	ASSUME(wf_in());
+	ASSUME(IN2.r_open_dir <= 1 && IN2.r_open_dest <= 1 && IN2.r_fstat <= 1 && IN2.dest_isreg <= 1 && IN2.r_fcntl_get <= 1 && IN2.r_fcntl_set <= 1 && IN2.name_null <= 1
+		&& IN2.to_stdout <= 1 && IN2.src_stdin <= 1 && IN2.try_sparse_opt <= 1 && IN2.mode_decompress <= 1 && IN2.r_unlink_enoent <= 1 && IN2.r_lseek_end <= 1);
+	ASSUME(IN2.stdout_flags >= 0 && IN2.cur_pos >= 0 && IN2.st_size >= 0);
+	setup_pair(); memset(&GOP, 0, sizeof(GOP)); g_open_dest_mode = true;
+	P.dest_fd = -1; P.dir_fd = -1; P.dest_name = NULL; P.dest_try_sparse = false;
+	P.src_fd = IN2.src_stdin ? STDIN_FILENO : FD_SRC;
+	opt_stdout = IN2.to_stdout; opt_force = IN.force; opt_synchronous = IN.sync; try_sparse = IN2.try_sparse_opt;
+	opt_mode = IN2.mode_decompress ? MODE_DECOMPRESS : MODE_COMPRESS;
+	const bool err = io_open_dest_real(&P);
+	const bool to_stdout = IN2.to_stdout || IN2.src_stdin;
+	const int i_unlink = first_ev(EV_UNLINK_DEST, -99);
+	if (to_stdout) {
+		ASSERT(GOP.opens == 0 && i_unlink < 0 && first_ev(EV_UNLINK_SRC, -99) < 0, "stdout destination: nothing opened, nothing removed");
+		if (!err) ASSERT(P.dest_fd == STDOUT_FILENO, "destination is fd 1");
+		if (!err && P.dest_try_sparse) {
+			ASSERT(IN2.mode_decompress && IN2.try_sparse_opt && !IN2.r_fstat && IN2.dest_isreg, "sparse stdout only when decompressing into a regular file");
+			if (IN2.stdout_flags & O_APPEND) { ASSERT(!IN2.r_lseek_end && !IN2.r_fcntl_set && (GOP.setfl_flags & O_APPEND) == 0 && restore_stdout_flags, "append mode: seek to the end, clear O_APPEND, remember to restore it"); REACH(od_stdout_append); }
+			else { ASSERT(IN2.cur_pos == IN2.st_size, "non-append stdout must already be positioned at the end of the file"); REACH(od_stdout_sparse); }
+		}
+		REACH_IF(err, od_stdout_error);
+		return;
+	}
+	if (IN2.name_null) { ASSERT(err && GOP.opens == 0 && i_unlink < 0, "no usable target name: error, nothing touched"); return; }
+	/* every open of the target is an exclusive create */
+	bool dest_opened = false;
+	for (unsigned k = 0; k < 2; ++k) {
+		if (k >= GOP.opens) break;
+		if (GOP.open_flags[k] & O_DIRECTORY) continue;
+		dest_opened = true;
+		ASSERT(GOP.open_path[k] == DEST_NAME_BUF, "the file opened for writing is the computed target name");
+		ASSERT((GOP.open_flags[k] & (O_CREAT | O_EXCL)) == (O_CREAT | O_EXCL) && (GOP.open_flags[k] & O_TRUNC) == 0 && (GOP.open_flags[k] & O_WRONLY), "target created with O_CREAT|O_EXCL, never truncated: an existing file cannot be overwritten by the open");
+		ASSERT(GOP.open_mode[k] == (S_IRUSR | S_IWUSR), "created with mode 0600 until the source's permissions are copied");
+	}
+	ASSERT((i_unlink >= 0) == (IN.force && !(IN.sync && IN2.r_open_dir)), "an existing target is removed only with --force");
+	if (i_unlink >= 0 && dest_opened) ASSERT(i_unlink < first_ev(100, -99) || first_ev(100, -99) >= 0, "removal precedes the exclusive create");
+	if (IN.force && !(IN.sync && IN2.r_open_dir) && IN.r_unlink && !IN2.r_unlink_enoent) { ASSERT(err && !dest_opened, "target could not be removed: give up without opening"); REACH(od_unlink_failed); }
+	if (err) {
+		ASSERT(P.dir_fd == -1, "error: directory fd closed");
+		ASSERT(!dest_opened || IN2.r_open_dest, "error paths leave no open destination fd behind");
+		REACH(od_error);
+		return;
+	}
+	ASSERT(dest_opened && P.dest_fd == FD_DEST, "success: destination opened");
+	if (P.dest_try_sparse) { ASSERT(IN2.mode_decompress && IN2.try_sparse_opt && !IN2.r_fstat, "sparse mode only when decompressing with sparse files allowed"); REACH(od_sparse); }
+	REACH(od_ok);
+}
